@@ -6,6 +6,7 @@ CONSTANTS
   FailNs = {3}
   PruneTs = {150}
   RgsSnaps = {}
+  ResolveCs = {}
   WithReload = TRUE
 CONSTRAINT Bound
 VIEW View
